@@ -20,6 +20,7 @@ import copy as pycopy
 import inspect
 import itertools
 import math
+import os
 import random
 from typing import Dict, List, Optional, Tuple
 
@@ -856,7 +857,7 @@ def check_accessor(c):
 
 
 def gen_regrid(rng, tier):
-    for i in range(_n(tier, 24, 400, 60)):
+    for i in range(_n(tier, 40, 400, 80)):
         cls = rng.choice(["dvf1", "dvf0", "svf1", "svf0", "ffd", "svffd"])
         n0 = rng.choice([9, 13, 17, 21])
         if cls in ("ffd", "svffd"):
@@ -865,8 +866,13 @@ def gen_regrid(rng, tier):
         else:
             n1 = [rng.choice([9, 12, 17, 25, 33]), rng.choice([9, 12, 17, 25, 33])]
             same_domain = rng.random() < 0.5
+        dense = cls not in ("ffd", "svffd")
         yield {"cls": cls, "kind": rng.choice(["param", "buffer"]), "n0": [n0, rng.choice([n0, n0 + 4])], "n1": n1,
-               "same_domain": same_domain, "seed": rng.randrange(1 << 30), "shrink": round(rng.uniform(0.6, 0.95), 2)}
+               "same_domain": same_domain, "seed": rng.randrange(1 << 30), "shrink": round(rng.uniform(0.6, 0.95), 2),
+               # sampling convention of the old / new grid (dense models; B-spline control grids keep corners aligned)
+               "ac0": (rng.random() < 0.6) if dense else True, "ac1": (rng.random() < 0.6) if dense else True,
+               # a field that is linear in the coordinates is reproduced exactly by linear resampling
+               "linear": dense and rng.random() < 0.5}
 
 
 def regrid_tol(fam: str, nmin: int) -> float:
@@ -887,15 +893,22 @@ def check_regrid(c):
     points (every second sample) after subdivision, same domain. Tolerances: `regrid_tol`."""
     ctor, kw = CTOR[c["cls"]]
     n0 = c["n0"] if c["cls"] not in ("ffd", "svffd") else [c["n0"][0], c["n0"][0]]
-    g0 = Grid(size=tuple(n0), spacing=tuple(8.0 / (n - 1) for n in n0), align_corners=True)
+    ac0, ac1 = bool(c.get("ac0", True)), bool(c.get("ac1", True))
+    g0 = Grid(size=tuple(n0), spacing=tuple(8.0 / (n - 1) for n in n0), align_corners=ac0)
     if c["same_domain"]:
-        g1 = Grid(size=tuple(c["n1"]), spacing=tuple(8.0 / (n - 1) for n in c["n1"]), align_corners=True)
+        g1 = Grid(size=tuple(c["n1"]), spacing=tuple(8.0 / (n - 1) for n in c["n1"]), align_corners=ac1)
     else:  # a smaller, shifted domain inside the old one
         s = c["shrink"]
-        g1 = Grid(size=tuple(c["n1"]), spacing=tuple(8.0 * s / (n - 1) for n in c["n1"]), center=(0.2, -0.1), align_corners=True)
+        g1 = Grid(size=tuple(c["n1"]), spacing=tuple(8.0 * s / (n - 1) for n in c["n1"]), center=(0.2, -0.1), align_corners=ac1)
     A = 0.05
     shape = ctor(g0, params=None, **kw).data_shape
     field = A * smooth(shape, c["seed"])
+    if c.get("linear"):
+        gen = torch.Generator().manual_seed(c["seed"])
+        co = torch.rand(2, 3, generator=gen) * 2 - 1
+        ys = torch.linspace(-1, 1, shape[-2]).reshape(-1, 1)
+        xs = torch.linspace(-1, 1, shape[-1]).reshape(1, -1)
+        field = A * torch.stack([co[k, 0] + co[k, 1] * xs + co[k, 2] * ys for k in range(2)]).unsqueeze(0) / 2
     t = ctor(g0, params=Parameter(field) if c["kind"] == "param" else field, **kw)
     X = torch.tensor([[[-1.1, 0.7], [0.4, 0.3], [1.3, -1.2], [0.0, 0.0], [-0.6, -0.9]]])    # world points inside both
 
@@ -918,13 +931,104 @@ def check_regrid(c):
         after = world_disp(t)
         err = (after - before).abs().max().item() / (4.0 * A)     # world amplitude: half extent 4 × A
     tol = regrid_tol(fam, min(list(n0) + list(c["n1"])))
+    if c.get("linear"):
+        # linear interpolation reproduces a linear field (and the affine flow of a linear velocity field, theorem
+        # C10_exp_affine_invariant) at interior points: only float32 rounding remains
+        tol = 1e-3
+    if os.environ.get("VERIF_DEBUG_REGRID"):
+        print("regrid", c["cls"], c.get("linear"), c.get("ac0"), c.get("ac1"), c["same_domain"], f"{err:.2e} tol {tol:.2e}")
     if err > tol:
         return (f"C09:regrid:{fam}:world-deformation-changed",
                 f"{type(t).__name__}.grid_: world deformation changed by {err:.3e} of the amplitude (tolerance {tol:.2e})")
     return None
 
 
+# ----------------------------------------------------------------------------- keyword conditioning
+class _Recorder:
+    """callable parameters that record the (args, kwargs) they are invoked with"""
+
+    def __init__(self):
+        self.last = None
+
+    def __call__(self, *args, **kwargs):
+        t = _calling_transform()
+        self.last = (tuple(_cond_version((a,)) for a in args), tuple(sorted((k, _cond_version((v,))) for k, v in kwargs.items())))
+        code = sum(self.last[0]) + sum(3 * v for _, v in self.last[1])
+        return Mode().field(t.data_shape, code)
+
+
+KWNAMES = ["a", "b"]
+
+
+def gen_condkw(rng, tier):
+    for i in range(_n(tier, 60, 1500, 150)):
+        ops = []
+        nobj = 1
+        for _ in range(rng.randint(2, 6)):
+            r = rng.random()
+            o = rng.randrange(nobj)
+            if r < 0.6:
+                pos = [rng.randint(1, 9) for _ in range(rng.choice([0, 1, 1, 2]))]
+                kw = {k: rng.randint(1, 9) for k in KWNAMES if rng.random() < 0.5}
+                if not pos and not kw:
+                    pos = [rng.randint(1, 9)]
+                ops.append(["cond_", o, pos, kw])
+            elif r < 0.8:
+                ops.append(["copy", o]); nobj += 1
+            else:
+                ops.append(["condcopy", o, [rng.randint(1, 9)]]); nobj += 1
+        yield {"cls": rng.choice(["dvf1", "svf0", "ffd", "seq"]), "ops": ops}
+
+
+def check_condkw(c):
+    """after any sequence of condition_(*args, **kwargs) calls and shallow copies, every object invokes its callable
+    parameters with exactly the positional and keyword arguments of its own last conditioning (a copy starts with the
+    conditioning of its source at the time of copying), and `condition()` reports them."""
+    rec = _Recorder()
+
+    def leaf(cls):
+        ctor, kw = CTOR[cls]
+        return ctor(G(1), params=rec, **kw)
+
+    comp = c["cls"] == "seq"
+    t0 = S.SequentialTransform(G(1), leaf("dvf1")) if comp else leaf(c["cls"])
+    objs, want = [t0], [((), ())]
+    tens = lambda v: torch.tensor([float(v)])
+    for k, op in enumerate(c["ops"]):
+        if op[0] == "cond_":
+            objs[op[1]].condition_(*[tens(v) for v in op[2]], **{n: tens(v) for n, v in op[3].items()})
+            new = (tuple(op[2]), tuple(sorted(op[3].items())))
+            for j in range(len(objs)):       # a composite conditions its (shared) members, so copies of it follow
+                if j == op[1] or comp:
+                    want[j] = new
+        elif op[0] == "copy":
+            objs.append(pycopy.copy(objs[op[1]])); want.append(want[op[1]])
+        elif op[0] == "condcopy":
+            objs.append(objs[op[1]].condition(*[tens(v) for v in op[2]]))
+            new = (tuple(op[2]), ())
+            want.append(new)
+            if comp:
+                want = [new] * len(want)
+        for j, t in enumerate(objs):
+            if comp and want[j] == ((), ()):
+                continue
+            rec.last = None
+            t(PROBE)
+            if rec.last != want[j]:
+                return ("C09:condition:kwargs:stale-or-shared",
+                        f"after op {k} {op}: object {j} invoked its callable with {rec.last}, conditioned on {want[j]}")
+            if not comp:
+                a, kw = t.condition()
+                got = (tuple(_cond_version((x,)) for x in a), tuple(sorted((n, _cond_version((v,))) for n, v in kw.items())))
+                if got != want[j]:
+                    return ("C09:condition:getter", f"after op {k} {op}: object {j}.condition() = {got}, want {want[j]}")
+    return None
+
+
 ORACLES = [
+    Oracle("cond_kwargs", gen_condkw, check_condkw,
+           doc="keyword and positional conditioning: the callable is invoked with exactly the last condition_ of that "
+               "object; copies do not share conditioning"),
     Oracle("fresh", gen_fresh, check_fresh, nontrivial,
            doc="call == freshly constructed transform with the same current params/grid/condition; disp() right after "
                "data_/grid_/condition_/reset == fresh (smooth non-constant fields)"),
